@@ -48,14 +48,22 @@ MustReject(c, p) ==
     \/ \A k \in DOMAIN p.relays : p.relays[k] # "exact"          \* (also: no relay tag)
     \/ \A k \in DOMAIN p.chals : p.chals[k] # c                   \* (also: no challenge tag, another connection's challenge)
 
+\* a connection the relay has closed (an error in the handler, a timeout): it has no identity and no roles any more
+Closed == <<"", "closed">>
+
 (* an AUTH message on connection c; ok = whether the relay accepted it *)
 Auth(c, p, ok) ==
-    /\ (ok => ~MustReject(c, p))
-    /\ (~ok => ~MustAccept(c, p))
+    /\ (ok => ~MustReject(c, p) /\ token[c] # Closed)
+    /\ (~ok => ~MustAccept(c, p) \/ token[c] = Closed)
     /\ token' = IF ok THEN [token EXCEPT ![c] = <<p.signer>>] ELSE token
     /\ last' = [a |-> "auth", c |-> c, p |-> p, ok |-> ok]
 
-RolesOfConn(c) == IF token[c] = <<>> THEN DefaultRoles ELSE RolesOf[token[c][1]]
+(* the relay closes connection c (web.start_client's outer handlers: close code 1013) *)
+Close(c) ==
+    /\ token' = [token EXCEPT ![c] = Closed]
+    /\ last' = [a |-> "close", c |-> c]
+
+RolesOfConn(c) == IF token[c] = <<>> THEN DefaultRoles ELSE IF token[c] = Closed THEN {} ELSE RolesOf[token[c][1]]
 May(c, action) == RolesOfConn(c) \cap ActionRoles[action] # {}
 
 (* a probe on connection c: an EVENT (save) or a REQ (query) of someone entitled iff the roles intersect *)
@@ -68,8 +76,9 @@ Probe(c, action, allowed) ==
 \* C15: the identity of a connection changes only by a fresh, correctly signed answer to its own challenge ...
 A_C15_OnlyValidAuth ==
     \A c \in Conns : token'[c] # token[c] =>
-        /\ last'.a = "auth" /\ last'.c = c /\ last'.ok
-        /\ ~MustReject(c, last'.p) /\ token'[c] = <<last'.p.signer>>
+        \/ /\ last'.a = "auth" /\ last'.c = c /\ last'.ok
+           /\ ~MustReject(c, last'.p) /\ token'[c] = <<last'.p.signer>>
+        \/ last'.a = "close" /\ last'.c = c /\ token'[c] = Closed
 \* ... any other AUTH leaves it as it was
 A_C15_FailedAuthKeepsIdentity == (last'.a = "auth" /\ ~last'.ok) => token' = token
 \* ... and an answer to another connection's challenge is useless
